@@ -61,6 +61,19 @@ pub fn lanes() -> Vec<Lane> {
     v.push(fault_lane());
     v.push(frame_lane());
     v.push(Lane {
+        prop: "C04",
+        family: "PAGEDFAULT",
+        gen: gen::gen_paged_fault_base,
+        cfg: cfg_default,
+        check: oracle::check_c04_paged,
+        nontrivial: fault_nontrivial,
+        rule: "per index one paged search (PagedResults alone or with EntriesOnly, 2-12 entries, page sizes 1-3); reference run, then EOF and reset at every response frame boundary and at a sample of offsets inside frames; non-trivial = the fault fired while a call was waiting; distinct = distinct history-shape hash",
+        runner: None,
+        expand: Some(expand_paged_fault),
+        quick: 600,
+        thorough: 20_000,
+    });
+    v.push(Lane {
         prop: "C18",
         family: "ESTABURL",
         gen: gen::gen_estab_url,
@@ -602,12 +615,20 @@ fn expand_fault(lane: &Lane, verif_seed: u64, index: u64) -> Vec<Case> {
     for nth in 1..=flushes.min(40) {
         add(Fault::FlushErr { nth, kind: IoKind::BrokenPipe }, format!("flusherr#{nth}"), false, &mut out);
     }
-    // undecodable frame at every frame boundary
+    // undecodable frames of several kinds at every frame boundary
+    let undecodable: [(&str, Vec<u8>); 4] = [
+        ("not-a-sequence", vec![0x04, 0x01, 0x00]),
+        ("indefinite-length-envelope", vec![0x30, 0x80, 0x02, 0x01, 0x01, 0x61, 0x07, 0x0a, 0x01, 0x00, 0x04, 0x00, 0x04, 0x00]),
+        ("empty-envelope", vec![0x30, 0x00]),
+        ("bare-integer", vec![0x02, 0x01, 0x05]),
+    ];
     for j in 0..n_emissions {
-        let mut sc = base.clone();
-        sc.plan.hostile = Some(Hostile { before_emission: j, class: "not-a-sequence".into(), bytes: vec![0x04, 0x01, 0x00], must_end: true, nest: None, outer_inflated: false });
-        let k = out.len() as u64;
-        out.push(Case { sc, trace: Some(rref.trace.clone()), sched_seed: mix(&[s.sched, k, 6]), cfg: RunCfg { diverge_seed: Some(mix(&[s.sched, k, 5])), ..cfg0() }, label: format!("undecodable-before-emission#{j}"), runner: None });
+        for (class, bytes) in undecodable.iter() {
+            let mut sc = base.clone();
+            sc.plan.hostile = Some(Hostile { before_emission: j, class: class.to_string(), bytes: bytes.clone(), must_end: true, nest: None, outer_inflated: false });
+            let k = out.len() as u64;
+            out.push(Case { sc, trace: Some(rref.trace.clone()), sched_seed: mix(&[s.sched, k, 6]), cfg: RunCfg { diverge_seed: Some(mix(&[s.sched, k, 5])), ..cfg0() }, label: format!("undecodable({class})-before-emission#{j}"), runner: None });
+        }
     }
     // unbind issued by one handle at every step index; handles dropped at every step index
     for (ci, cs) in base.clients.iter().enumerate() {
@@ -767,4 +788,32 @@ pub fn frame_lane() -> Lane {
         quick: 250,
         thorough: 6000,
     }
+}
+
+fn expand_paged_fault(lane: &Lane, verif_seed: u64, index: u64) -> Vec<Case> {
+    use crate::scenario::{Fault, IoKind};
+    let s = seeds(verif_seed, lane.family, index);
+    let base = (lane.gen)(s.scenario);
+    let cfg0 = || RunCfg { tokio_seed: s.tokio, ..Default::default() };
+    let rref = runner::run(&base, Sched::from_seed(s.sched), &cfg0());
+    let mut out = vec![Case { sc: base.clone(), trace: None, sched_seed: s.sched, cfg: cfg0(), label: "reference".into(), runner: None }];
+    let mut offsets: Vec<usize> = vec![0];
+    for e in &rref.hist {
+        if let EvKind::SrvEmit { range, .. } = &e.kind {
+            offsets.push(range.1);
+            offsets.push(range.0 + (range.1 - range.0) / 2);
+        }
+    }
+    offsets.sort();
+    offsets.dedup();
+    for at in offsets {
+        for f in [Fault::EofAt { at }, Fault::ReadErrAt { at, kind: IoKind::Reset }] {
+            let mut sc = base.clone();
+            sc.faults = vec![f];
+            let k = out.len() as u64;
+            // the follow-up page requests depend on what was delivered: fresh schedule, no trace replay
+            out.push(Case { sc, trace: None, sched_seed: mix(&[s.sched, k]), cfg: cfg0(), label: format!("cut@{at}"), runner: None });
+        }
+    }
+    out
 }
